@@ -15,3 +15,25 @@ Proof.
   split; [vm_compute; reflexivity|]. split; [vm_compute; reflexivity|]. split; [vm_compute; reflexivity|].
   eexists. split; [vm_compute; reflexivity|]. vm_compute. reflexivity.
 Qed.
+
+(* ---- a script of two statements: Y = X[-1] + Z * {a}  and  Z = Y[-1] (Y used before and after its definition) ---- *)
+Require Import GraphScriptFacts Split ParseModel PyStr.
+Definition ex_sq1 : neq := mkNeq [NTerm "Y" (IInt 0%Z); NChr " "]
+  [NChr " "; NTerm "X" (IInt (-1)%Z); NChr " "; NChr "+"; NChr " "; NTerm "Z" (IInt 0%Z); NChr " "; NChr "*"; NChr " "; NTerm "a" (IInt 0%Z)].
+Definition ex_sq2 : neq := mkNeq [NTerm "Z" (IInt 0%Z); NChr " "] [NChr " "; NTerm "Y" (IInt (-1)%Z)].
+Definition ex_script : string := denorm_text canon ex_sq1 ++ nl_s ++ denorm_text canon ex_sq2.
+Example ex_script_hyps :
+  Forall (stmt_ok_q canon) [ex_sq1; ex_sq2] /\
+  split_M ex_script = (map (denorm_text canon) [ex_sq1; ex_sq2], None) /\
+  exists syms, parse_model_nocheck ex_script = POk syms /\
+    match symbols_to_graph_M syms with
+    | Ret g => in_edges g "Y[t]" = ["X[t-1]"; "Z[t]"; "a[t]"] /\ in_edges g "Z[t]" = ["Y[t-1]"]
+    | Raise _ => False
+    end.
+Proof.
+  split.
+  - constructor; [|constructor; [|constructor]].
+    + exists "Y", 0%Z, [NChr " "], (nrhs ex_sq1). repeat split; vm_compute; reflexivity.
+    + exists "Z", 0%Z, [NChr " "], (nrhs ex_sq2). repeat split; vm_compute; reflexivity.
+  - split; [vm_compute; reflexivity|]. eexists. split; [vm_compute; reflexivity|]. vm_compute. split; reflexivity.
+Qed.
